@@ -12,6 +12,7 @@ BIN = tempfile.mktemp(prefix="raftlint-batch-")
 shutil.copy(os.path.join(root, "bin", "raftlint"), BIN)  # rebuilds during a batch must not change the verdicts
 os.chmod(BIN, 0o755)
 def one(d):
+    d = os.path.abspath(d)
     tmp = tempfile.mkdtemp(prefix="patchrun-")
     try:
         dst = os.path.join(tmp, "repo")
